@@ -190,6 +190,7 @@ def run_metamodel_case(name, via):
 REPO_GRAMMAR = "Model: imports*=Import items*=Item; Import: 'import' importURI=STRING; Item: 'i' name=ID ('r' ref=[Item])?;"
 REPO_CASES = [(p, sc, via) for p in ("FQNImportURI", "PlainNameImportURI", "PlainNameGlobalRepo") for sc in ("str-noimport", "file-noimport", "file-import")
               for via in ("api", "api-file", "gen") if not (p == "PlainNameGlobalRepo" and sc == "file-import")]
+REPO_CASES += [(p, "global-file-then-str", via) for p in ("FQNImportURI", "PlainNameImportURI") for via in ("api", "api-file")]
 
 
 def run_repo_case(prov, scenario, via):
@@ -200,15 +201,21 @@ def run_repo_case(prov, scenario, via):
 
     d = os.path.join(core.rundir(), "c29r-%d" % os.getpid())
     os.makedirs(d, exist_ok=True)
-    mm = metamodel_from_str(REPO_GRAMMAR)
+    mm = metamodel_from_str(REPO_GRAMMAR, global_repository=scenario.startswith("global-"))
     mm.register_scope_providers({"*.*": getattr(providers, prov)()})
     with open(os.path.join(d, "lib.m"), "w") as f:
         f.write("i a i b r a")
     main = os.path.join(d, "main.m")
-    text = 'import "lib.m" i x r a i y r x' if scenario == "file-import" else "i x i y r x"
+    text = 'import "lib.m" i x r a i y r x' if scenario in ("file-import", "global-file-then-str") else "i x i y r x"
     with open(main, "w") as f:
         f.write(text)
-    m = mm.model_from_str(text) if scenario == "str-noimport" else mm.model_from_file(main)
+    if scenario == "global-file-then-str":
+        # the meta-model's global repository holds the file models of an earlier load; a model from a string is never added to it
+        mm.model_from_file(main)
+        text = "i q i r r q"
+        m = mm.model_from_str(text)
+    else:
+        m = mm.model_from_str(text) if scenario == "str-noimport" else mm.model_from_file(main)
     models = [m] + [x for x in m._tx_model_repository.all_models if x is not m] if hasattr(m, "_tx_model_repository") else [m]
     objs = [o for x in models for o in get_children(lambda _: True, x)]
     if via == "api":
@@ -219,7 +226,7 @@ def run_repo_case(prov, scenario, via):
         model_export(m, os.path.join(d, "out.dot"))
         out = open(os.path.join(d, "out.dot")).read()
     else:
-        if scenario == "str-noimport":
+        if scenario in ("str-noimport", "global-file-then-str"):
             m._tx_filename = main  # the generator derives the output name from the model's file name
         generator_for_language_target("any", "dot")(mm, m, d, True, False)
         out = open(os.path.join(d, "main.dot")).read()
